@@ -11,6 +11,13 @@ import Mashu.Lemmas.Inv
 import Mashu.Generated
 namespace Mashu
 
+/-- Bool-valued comparison of an outcome with an expected value (`none` = any error) -/
+def okIs' (r : R V) (v : Option V) : Bool :=
+  match r, v with
+  | .ok x, some y => x == y
+  | .error _, none => true
+  | _, _ => false
+
 /-- the uninterpreted Python side returns objects of the class it constructs -/
 structure TypeLaws (O : Oracle) : Prop where
   int_ty : ∀ v r, O.call .int v = .ok r → ∃ i, r = .int i
